@@ -26,7 +26,9 @@ FLT_EPS = 2.0 ** -23
 QERR = 1e-9
 CLAMP_ANGLE = math.acos(1.0 - QERR)          # F5: arcLength is 0 below this angle
 WEIGHTS = [0.5, 1.0, 2.0, 1e-3, 1e3]
-IMPL_ONLY = ("dubins", "reedsshepp")
+IMPL_ONLY = ("dubins", "reedsshepp", "owen", "vana", "vanaowen")
+CAR2D = ("dubins", "reedsshepp")
+CONSTRAINED = ("projected", "atlas", "tangentbundle")
 
 
 def up(x):
@@ -68,6 +70,15 @@ def sp_tokens(sp):
         return ["dubins", B(sp[1]), "1" if sp[2] else "0"] + [B(x) for x in sp[3]] + [B(x) for x in sp[4]]
     if k == "reedsshepp":
         return ["reedsshepp", B(sp[1])] + [B(x) for x in sp[2]] + [B(x) for x in sp[3]]
+    if k in ("owen", "vana", "vanaowen"):
+        return [k, B(sp[1]), B(sp[2])] + [B(x) for x in sp[3]] + [B(x) for x in sp[4]]
+    if k == "empty":
+        return ["empty"]
+    if k == "spacetime":
+        tb = ["u"] if sp[3] is None else ["b", B(sp[3][0]), B(sp[3][1])]
+        return ["spacetime", B(sp[1]), B(sp[2])] + tb + sp_tokens(sp[4])
+    if k in CONSTRAINED or k == "cforest":
+        return [k] + sp_tokens(sp[1])
     raise ValueError(k)
 
 
@@ -132,6 +143,25 @@ def parse_space(t, i=0):
         lo = fl(2)
         hi = fl(2)
         return ("reedsshepp", rho, lo, hi), i
+    if k in ("owen", "vana", "vanaowen"):
+        rho, pitch = fl(2)
+        lo = fl(3)
+        hi = fl(3)
+        return (k, rho, pitch, lo, hi), i
+    if k == "empty":
+        return ("empty",), i
+    if k == "spacetime":
+        vmax, tw = fl(2)
+        m = t[i]
+        i += 1
+        tb = None
+        if m == "b":
+            tb = tuple(fl(2))
+        inner, i = parse_space(t, i)
+        return ("spacetime", vmax, tw, tb, inner), i
+    if k in CONSTRAINED or k == "cforest":
+        inner, i = parse_space(t, i)
+        return (k, inner), i
     raise ValueError("space kind " + k)
 
 
@@ -160,6 +190,16 @@ def prims(sp):
         return [("rv", sp[3], sp[4]), ("so2",)]
     if k == "reedsshepp":
         return [("rv", sp[2], sp[3]), ("so2",)]
+    if k == "owen":
+        return [("rv", sp[3], sp[4]), ("so2",)]
+    if k in ("vana", "vanaowen"):
+        return [("rv", list(sp[3]) + [-sp[2]], list(sp[4]) + [sp[2]]), ("so2",)]
+    if k == "empty":
+        return []
+    if k == "spacetime":
+        return prims(sp[4]) + [("time", sp[3])]
+    if k in CONSTRAINED or k == "cforest":
+        return prims(sp[1])
     raise ValueError(k)
 
 
@@ -190,8 +230,10 @@ def units(sp, w=1.0):
         return [(("rv", sp[1], sp[2]), w, 2), (("so2",), w * 0.5, 1)]
     if k == "se3":
         return [(("rv", sp[1], sp[2]), w, 3), (("so3",), w, 4)]
-    if k == "wrap":
+    if k == "wrap" or k == "cforest" or k in CONSTRAINED:      # pure forwarding
         return units(sp[1], w)
+    if k == "spacetime":                                        # compound [(1-tw, space), (tw, time)]
+        return units(sp[4], w * (1 - sp[2])) + [(("time", sp[3]), w * sp[2], 1)]
     return [(sp, w, nvals(sp))]
 
 
@@ -201,8 +243,10 @@ def contains(sp, pred):
     k = sp[0]
     if k == "cmp":
         return any(contains(s, pred) for _w, s in sp[1])
-    if k == "wrap":
+    if k == "wrap" or k == "cforest" or k in CONSTRAINED:
         return contains(sp[1], pred)
+    if k == "spacetime":
+        return contains(sp[4], pred)
     return False
 
 
@@ -482,7 +526,7 @@ def rand_compound(r, depth):
     k = r.range(1, 4) if depth > 1 else r.range(1, 3)
     cs = []
     for _ in range(k):
-        w = r.choice(WEIGHTS)
+        w = 0.0 if r.chance(1, 12) else r.choice(WEIGHTS)
         if depth > 1 and r.chance(2, 5):
             s = rand_compound(r, depth - 1)
             if r.chance(1, 6):
@@ -511,6 +555,21 @@ def shipped_spaces(r):
     out += [("wrap", ("rv", [0.0], [1.0])), ("wrap", ("so3",)), ("wrap", ("so2",)), ("wrap", ("disc", 0, 4)),
             ("wrap", ("se3", [0.0, 0.0, 0.0], [2.0, 2.0, 2.0])), ("wrap", ("wrap", ("torus", 1.0, 0.5))),
             ("wrap", ("cmp", [(2.0, ("so2",)), (0.5, ("time", (0.0, 1.0)))]))]
+    # spaces outside the shared `Space` type (Model/SpaceDistX.lean)
+    box3 = ("rv", [-2.0, -2.0, -2.0], [2.0, 2.0, 2.0])
+    out += [("empty",),
+            ("spacetime", 1.0, 0.5, None, ("rv", [0.0, 0.0], [1.0, 1.0])),
+            ("spacetime", 0.5, 0.3, (0.0, 10.0), ("se2", [0.0, 0.0], [1.0, 1.0])),
+            ("spacetime", 2.0, 0.9, (0.0, 1.0), ("so3",)),
+            ("spacetime", 1.0, 0.5, (0.0, 5.0), ("cmp", [(1.0, ("so2",)), (2.0, ("rv", [0.0], [3.0]))])),
+            ("projected", box3), ("atlas", box3), ("tangentbundle", ("rv", [-1.0, -1.0], [1.0, 1.0])),
+            ("cforest", ("se2", [0.0, 0.0], [1.0, 1.0])), ("cforest", ("so3",)), ("cforest", ("cforest", ("disc", 0, 3))),
+            ("cforest", ("spacetime", 1.0, 0.5, None, ("so2",))), ("cforest", ("projected", box3)),
+            ("cforest", ("mobius", 1.0, 1.0)),
+            # zero weights: the compound still claims isMetricSpace()
+            ("cmp", [(0.0, ("so2",)), (1.0, ("rv", [0.0], [1.0]))]),
+            ("cmp", [(1.0, ("rv", [0.0, 0.0], [1.0, 1.0])), (0.0, ("so3",))]),
+            ("cmp", [(0.0, ("disc", 0, 3))])]
     return out
 
 
@@ -521,6 +580,10 @@ def car_spaces(r):
         out.append(("dubins", rho, False, box[0], box[1]))
         out.append(("dubins", rho, True, box[0], box[1]))
         out.append(("reedsshepp", rho, box[0], box[1]))
+    out.append(("cforest", ("dubins", 1.0, False, [0.0, 0.0], [5.0, 5.0])))
+    b3 = ([-10.0, -10.0, -10.0], [10.0, 10.0, 10.0])
+    out += [("owen", 1.0, PI / 6, b3[0], b3[1]), ("vana", 1.0, PI / 6, b3[0], b3[1]), ("vanaowen", 1.0, PI / 6, b3[0], b3[1]),
+            ("owen", 3.0, 0.3, [0.0, 0.0, 0.0], [2.0, 2.0, 2.0])]
     return out
 
 
@@ -637,7 +700,7 @@ def laws(sp, cl, ext, tr, res, count=None, scale=1.0):
                 out.append(("positive", (i, j), 0.0, "states are not equalStates but their distance is %r" % D[(i, j)]))
     if sym_claimed:
         for (i, j) in [(0, 1), (1, 2), (0, 2)]:
-            df = abs(D[(i, j)] - D[(j, i)])
+            df = 0.0 if D[(i, j)] == D[(j, i)] else abs(D[(i, j)] - D[(j, i)])      # +inf == +inf (SpaceTime)
             if not (df <= slack(D[(i, j)], D[(j, i)], eps=se)):
                 out.append(("symmetric", (i, j), df, "d(x,y)=%r but d(y,x)=%r" % (D[(i, j)], D[(j, i)])))
     if ext is not None:
@@ -712,9 +775,15 @@ def attribute(ck, hbin, sp, tr, law, idx):
         # every law is evaluated on the unit, whatever the unit itself claims (the compound claimed it)
         cl2 = dict(cl)
         cl2["metric"] = True
-        scale = w if w > 0 else 1.0
+        # a zero-weight component contributes 0·distance: judged with scale 0 it can only fail the parts of the laws
+        # that do not go through the distance — `equalStates(s, s)` — and POSITIVITY (states that differ in it alone are
+        # at distance 0: a pseudo-metric by the user's choice of weight, yet the compound claims isMetricSpace())
+        scale = w
         vs = [v for v in laws(usp, cl2, ext, sub, ts[0], scale=scale) if v[0] == law]
         if not vs:
+            continue
+        if w == 0 and law == "positive":
+            out.append(("zeroWeight", {}))
             continue
         tags = {}
         if law == "triangle" and usp[0] == "so3":
@@ -727,21 +796,29 @@ def attribute(ck, hbin, sp, tr, law, idx):
             tags["glued_boundary"] = bool(abs(abs(a_[0] - b_[0]) - PI) < 1e-12)
         if law == "positive" and usp[0] in IMPL_ONLY:
             tags.update(car_eps_class(usp, sub, law, vs[0][1]))
+        if law == "nonneg" and usp[0] == "vanaowen":
+            # F138: -inf from an infinite vertical radius times a tiny negative altitude difference
+            ia, ib = vs[0][1]
+            tags["neg_inf_flat"] = bool(vs[0][2] == math.inf and abs(sub[ia][2] - sub[ib][2]) < 1e-8
+                                        and abs(sub[ia][3] - sub[ib][3]) < 1e-8)
         out.append((unit_kind(usp), tags))
     return out
 
 
 def car_eps_class(sp, tr, law, idx):
     """Dubins returns a zero-length path when the states are closer than DUBINS_EPS = 1e-6 (position / rho
-    and heading), and the Reeds-Shepp formulas lose everything below that scale to cancellation: a positivity
-    failure in these spaces is tagged with whether the pair lies inside that threshold."""
+    and heading), the Reeds-Shepp formulas lose everything below that scale to cancellation, and the 3D Dubins
+    family (Owen, Vana, VanaOwen) is built on the same Dubins sub-paths: a positivity failure in these spaces is
+    tagged with whether the pair lies inside that threshold (position/rho, heading, and pitch where present)."""
     if law != "positive" or sp[0] not in IMPL_ONLY:
         return {}
     a, b = tr[idx[0]], tr[idx[1]]
-    dpos = math.hypot(a[0] - b[0], a[1] - b[1]) / sp[1]
-    dth = abs(a[2] - b[2])
+    npos = 2 if sp[0] in CAR2D else 3
+    dpos = math.sqrt(sum((a[j] - b[j]) ** 2 for j in range(npos))) / sp[1]
+    dth = abs(a[-1] - b[-1])
     dth = min(dth, abs(2 * PI - dth))
-    return {"within_car_eps": bool(dpos < 1e-6 and dth < 1e-6)}
+    dpitch = abs(a[3] - b[3]) if sp[0] in ("vana", "vanaowen") else 0.0
+    return {"within_car_eps": bool(dpos < 1e-6 and dth < 1e-6 and dpitch < 1e-6)}
 
 
 def minimal_script(sp, tr):
